@@ -32,7 +32,8 @@ ASSUMPTIONS = [
 ]
 FLOORS = {"quick": {"calls": 100000, "calls-with-special-values": 50000,
                     "calls-with-boundary-length-values": 3000},
-          "thorough": {"calls": 9000000, "calls-with-special-values": 4000000}}
+          "thorough": {"calls": 9000000, "calls-with-special-values": 4000000,
+                       "calls-with-boundary-length-values": 100000}}
 SHARD_TIMEOUT = {"quick": 600, "thorough": 3000}
 
 FRAGS = ["a", "script", "x y", '"', "\\", '\\"', "\r", "\n", "\r\n", "\x00", "{", "}", "{5}",
